@@ -157,6 +157,8 @@ type historyGen struct {
 	maxPatch    int
 	pEmptyDel   float64 // probability that a delete-query is the empty query
 	pLargePatch float64
+	pFault      float64 // probability that a valid create/patch runs with an injected statement failure
+	retry       *storeOp
 }
 
 func (g *historyGen) pick() *Tup {
@@ -187,6 +189,26 @@ func (g *historyGen) flawTuple(t *Tup) {
 }
 
 func (g *historyGen) op() *storeOp {
+	r := g.r
+	if g.retry != nil {
+		// the client retries the request that failed below keto, now without the fault
+		op := g.retry
+		g.retry = nil
+		return op
+	}
+	op := g.op0()
+	if g.pFault > 0 && op.Flaw == "" && (op.Kind == "create" || op.Kind == "patch") && r.Float64() < g.pFault {
+		op.Fault = pickS(r, []string{"insert", "insert", "delete", "both"})
+		if r.IntN(3) != 0 {
+			cp := *op
+			cp.Fault = ""
+			g.retry = &cp
+		}
+	}
+	return op
+}
+
+func (g *historyGen) op0() *storeOp {
 	r := g.r
 	flawed := r.IntN(8) == 0
 	op := &storeOp{}
@@ -311,10 +333,17 @@ type c04Case struct {
 
 func genC04Case(r *rand.Rand, idx int64) *c04Case {
 	c := &c04Case{Universe: genStoreUniverse(r)}
-	g := &historyGen{r: r, u: c.Universe, writeVias: []string{"rest", "grpc"}, deleteVias: []string{"rest", "grpc", "grpc-deprecated"}, maxPatch: 6, pEmptyDel: 0.03}
+	g := &historyGen{r: r, u: c.Universe, writeVias: []string{"rest", "grpc"}, deleteVias: []string{"rest", "grpc", "grpc-deprecated"}, maxPatch: 6, pEmptyDel: 0.03, pFault: 0.1}
+	if idx%3 == 0 {
+		// failures while the names of the history are still new to the server
+		g.pFault = 0.5
+	}
 	n := 5 + r.IntN(56)
 	for i := 0; i < n; i++ {
 		c.Ops = append(c.Ops, g.op())
+		if i == 3 && idx%3 == 0 {
+			g.pFault = 0.1
+		}
 	}
 	return c
 }
@@ -597,7 +626,26 @@ func countRows(dump []string, prefix string) int {
 // operation for later messages and whether the model changed.
 func (m *storeMon) applyWrite(sub string, d storeDriver, op *storeOp, before []string, dump func() ([]string, error)) (label string, changed bool, stop bool) {
 	label = fmt.Sprintf("%s-%s", op.Kind, op.Via)
-	ans := d.apply(op)
+	var ans opAnswer
+	if op.Fault != "" {
+		label += "-under-" + op.Fault + "-fault"
+		undo, err := m.env.injectStatementFault(op.Fault)
+		if err != nil {
+			m.run.inconclusive(fmt.Sprintf("idx %d %s: cannot install the fault: %v", m.idx, sub, err))
+			return label, false, true
+		}
+		ans = d.apply(op)
+		if err := undo(); err != nil {
+			m.run.inconclusive(fmt.Sprintf("idx %d %s: cannot remove the fault: %v", m.idx, sub, err))
+			return label, false, true
+		}
+		m.run.count("writes_under_statement_fault", 1)
+		if !ans.accepted() {
+			m.run.count("writes_under_statement_fault_refused", 1)
+		}
+	} else {
+		ans = d.apply(op)
+	}
 	m.run.eval(1)
 	m.run.count("ops_"+op.Kind+"_"+op.Via, 1)
 	m.run.count("op_answers_"+ans.Class, 1)
@@ -625,6 +673,8 @@ func (m *storeMon) applyWrite(sub string, d storeDriver, op *storeOp, before []s
 		if !ans.rejected() {
 			m.run.count("invalid_writes_answered_with_server_error_or_panic", 1) // status class: C13's business
 		}
+	} else if op.Fault != "" {
+		// a request that failed below keto: like any refused request it must leave no trace
 	} else {
 		m.violate(sub, fmt.Sprintf("%s:valid-write-rejected:%s:%s", m.prop, label, ans.Code),
 			fmt.Sprintf("%s is valid by the model but was answered %s %s", label, ans.Code, ans.Text), map[string]any{"op": op})
@@ -661,6 +711,171 @@ func TestC04(t *testing.T) {
 		verdict := runC04Case(run, idx, c, seen)
 		run.end(idx, "", verdict)
 	}
+	nWide := int64(p.pick(8, 96))
+	for k := int64(0); k < nWide; k++ {
+		idx := c04WideBase + k
+		if !p.mine(idx) {
+			continue
+		}
+		c := genC04Wide(p.rng(idx, "wide"), p.Tier == "thorough")
+		run.begin(idx, "", c)
+		verdict := runC04Wide(run, idx, c, seen)
+		run.end(idx, "", verdict)
+	}
+}
+
+// c04WideCase: one object#relation holding more subject sets than any internal
+// page of keto (the SQL traverser pages by 1000 rows, expand by 100, list by the
+// page size): N > 1000 groups are granted on one document, every group has one
+// member of its own (some through a nested group), so a check is allowed only
+// through exactly one of the N subject sets. Width and depth limits are far away.
+type c04WideCase struct {
+	N       int      `json:"n_subject_sets"`
+	Chunks  []int    `json:"patch_sizes"`
+	Vias    []string `json:"vias"`
+	Deleted []int    `json:"deleted_groups"`
+	Probes  []int    `json:"probed_groups"`
+}
+
+const c04WideBase = int64(1_000_000)
+
+func genC04Wide(r *rand.Rand, thorough bool) *c04WideCase {
+	c := &c04WideCase{N: 1001 + r.IntN(1400)}
+	if r.IntN(4) == 0 {
+		c.N = 2001 + r.IntN(1200)
+	}
+	for left := c.N; left > 0; {
+		n := 150 + r.IntN(900)
+		if n > left {
+			n = left
+		}
+		c.Chunks = append(c.Chunks, n)
+		c.Vias = append(c.Vias, pickS(r, []string{"rest", "grpc"}))
+		left -= n
+	}
+	nd := 40 + r.IntN(200)
+	seen := map[int]bool{}
+	for len(c.Deleted) < nd {
+		if i := r.IntN(c.N); !seen[i] {
+			seen[i] = true
+			c.Deleted = append(c.Deleted, i)
+		}
+	}
+	np := 24
+	if thorough {
+		np = 60
+	}
+	for k := 0; k < np; k++ {
+		switch {
+		case k%4 == 0:
+			c.Probes = append(c.Probes, c.Deleted[r.IntN(len(c.Deleted))])
+		case k%4 == 1:
+			c.Probes = append(c.Probes, 7*r.IntN(c.N/7)) // nested member
+		default:
+			c.Probes = append(c.Probes, r.IntN(c.N))
+		}
+	}
+	return c
+}
+
+func runC04Wide(run *runner, idx int64, c *c04WideCase, seen map[string]int) string {
+	u := &storeUniverse{Namespaces: []string{"Doc", "Group", "User"}, UnknownNS: []string{"Nope"}, Objects: []string{"doc"}, Relations: []string{"viewer", "member"}, SubjectIDs: []string{"u0"},
+		Sets: []*ketoapi.SubjectSet{{Namespace: "Group", Object: "g0", Relation: "member"}}}
+	env, err := newEnv(run.t, EnvOpts{Namespaces: c16NSConfig(u.Namespaces), MaxDepth: 8, MaxWidth: 10000})
+	if err != nil {
+		run.inconclusive(fmt.Sprintf("idx %d: env: %v", idx, err))
+		return "inconclusive"
+	}
+	caseCtx, cancelCase := context.WithCancel(env.Ctx)
+	g, err := newGRPC(env)
+	if err != nil {
+		cancelCase()
+		env.Close()
+		run.inconclusive(fmt.Sprintf("idx %d: grpc: %v", idx, err))
+		return "inconclusive"
+	}
+	defer func() {
+		cancelCase()
+		g.Close()
+		env.Close()
+	}()
+	rest := &restDriver{ctx: caseCtx, read: env.Reg.ReadRouter(env.Ctx), write: env.Reg.WriteRouter(env.Ctx)}
+	grpcD := newGRPCDriver(caseCtx, g, nil)
+	drivers := wrapFaults([]storeDriver{rest, grpcD}, nil)
+	byVia := map[string]storeDriver{"rest": rest, "grpc": grpcD}
+	m := &storeMon{run: run, prop: "C04", idx: idx, c: c, seen: seen, env: env, u: u, cfg: u.cfg(), model: newRefStore(), net: "default"}
+
+	member := func(i int) string { return fmt.Sprintf("u%d", i) }
+	groupTuples := func(i int) []*Tup {
+		gi := fmt.Sprintf("g%d", i)
+		out := []*Tup{tupSet("Doc", "doc", "viewer", "Group", gi, "member")}
+		if i%7 == 0 {
+			hi := fmt.Sprintf("h%d", i)
+			out = append(out, tupSet("Group", gi, "member", "Group", hi, "member"), tupID("Group", hi, "member", member(i)))
+		} else {
+			out = append(out, tupID("Group", gi, "member", member(i)))
+		}
+		return out
+	}
+	write := func(sub string, via string, action ketoapi.PatchAction, groups []int, onlyEdge bool) bool {
+		op := &storeOp{Kind: "patch", Via: via}
+		for _, i := range groups {
+			ts := groupTuples(i)
+			if onlyEdge {
+				ts = ts[:1]
+			}
+			for _, t := range ts {
+				op.Deltas = append(op.Deltas, &ketoapi.PatchDelta{Action: action, RelationTuple: t})
+			}
+		}
+		before, err := env.Dump()
+		if err != nil {
+			run.inconclusive(fmt.Sprintf("idx %d %s: dump: %v", idx, sub, err))
+			return false
+		}
+		_, _, stop := m.applyWrite(sub, byVia[via], op, before, env.Dump)
+		return !stop
+	}
+	probe := func(sub, after string, k, i int) {
+		q := tupID("Doc", "doc", "viewer", member(i))
+		m.observeCheck(sub, after, drivers[k%len(drivers)], q)
+	}
+	next := 0
+	for k, n := range c.Chunks {
+		var groups []int
+		for j := 0; j < n; j++ {
+			groups = append(groups, next)
+			next++
+		}
+		if !write(fmt.Sprintf("wide-insert%d", k), c.Vias[k], ketoapi.ActionInsert, groups, false) {
+			return "stopped"
+		}
+	}
+	run.count("wide_cases", 1)
+	run.maxCounter("max_subject_sets_on_one_relation", int64(c.N))
+	run.nontrivial(fmt.Sprintf("wide/%d", c.N/250))
+	for k, i := range c.Probes {
+		probe(fmt.Sprintf("wide-check%d", k), "wide-inserts", k, i)
+	}
+	wideQ := &ketoapi.RelationQuery{Namespace: sp("Doc"), Object: sp("doc"), Relation: sp("viewer")}
+	for k, d := range drivers {
+		m.observeList("wide-list", "wide-inserts", d, wideQ, []int{1000, 100, 333}[(k+int(idx))%3])
+		m.observeExpand("wide-expand", "wide-inserts", d, &ketoapi.SubjectSet{Namespace: "Doc", Object: "doc", Relation: "viewer"}, 2+k)
+	}
+	// removals take effect immediately: drop the grant of some groups (the members stay)
+	if !write("wide-delete", c.Vias[0], ketoapi.ActionDelete, c.Deleted, true) {
+		return "stopped"
+	}
+	for k, i := range c.Probes {
+		probe(fmt.Sprintf("wide-check-after-delete%d", k), "wide-delete", k+1, i)
+	}
+	for k, d := range drivers {
+		m.observeList("wide-list-after-delete", "wide-delete", d, wideQ, []int{1000, 100, 333}[(k+1+int(idx))%3])
+	}
+	if m.fail {
+		return "violation"
+	}
+	return "ok"
 }
 
 func runC04Case(run *runner, idx int64, c *c04Case, seen map[string]int) string {
